@@ -9,18 +9,21 @@
 (*   start    : the start class                                                                     *)
 (*   empty    : the set of truly empty classes                                                      *)
 (*   verified : classes the verification strategy verifies (a rule with no children)               *)
-(*   ninf, ninit, nexp, nsym : number of inferral / initial strategies, of strategies in the (single)  *)
-(*              expansion set, of symmetry strategies                                                *)
-(*   inferral, symm : class -> sequence of ninf / nsym slots, like initial / expand                  *)
-(*   initial  : class -> sequence of ninit slots, a slot is <<>> or <<rule>>: what the i-th initial  *)
-(*              strategy yields for the class (classes not in the domain: nothing)                   *)
-(*   expand   : class -> sequence of nexp slots: what the i-th expansion strategy yields             *)
-(*   flavour  : "base" (rule_db/base.py: pruning, equivalence) | "forest" (rule_db/forest.py, no    *)
-(*              reverse rules: a class is verified as soon as it is productive)                      *)
+(*   ninf, ninit, nsym : number of inferral / initial / symmetry strategies;  nexps : sequence, the    *)
+(*              number of strategies in each expansion set;  iterative : the pack's flag              *)
+(*   inferral, symm : class -> sequence of ninf / nsym slots;  expand : class -> per set, its slots   *)
+(*   initial  : class -> sequence of ninit slots; a slot is the sequence of rules the i-th initial    *)
+(*              strategy yields for the class (<<>>: nothing; a plain strategy: at most one rule; a  *)
+(*              strategy factory: any number, possibly for *other* parent classes)                    *)
+(*   flavour  : "base" (rule_db/base.py: pruning, equivalence) | "forest" (rule_db/forest.py: a     *)
+(*              class is verified as soon as it is productive);  reverse : the forest database also   *)
+(*              stores the keys of the reverse rules of every reversible rule                          *)
 (* a rule is [ch |-> children classes, pe |-> possibly_empty, ip |-> ignore_parent,                 *)
-(*            wk |-> workable, tw |-> two-way, sh |-> shifts, nf |-> inferrable].                    *)
-(* Pack shape: plain strategies only (no factories): any number of inferral, initial and symmetry    *)
-(* strategies, one expansion set with any number of strategies (the README pack: ninit = nexp = 1).  *)
+(*            wk |-> workable, tw |-> two-way, rv |-> reversible, sh |-> shifts, nf |-> inferrable,   *)
+(*            par |-> the class                                                                        *)
+(*            the rule is a rule of (the class being expanded, or a foreign parent)].                 *)
+(* Pack shape: any number of inferral, initial and symmetry strategies, any number of expansion sets; *)
+(* inferral and symmetry strategies are plain strategies, the others may be factories.                *)
 (*                                                                                                  *)
 (* One action = one work packet (Packet), one specification check (Check; in the base flavour it     *)
 (* marks the surviving classes verified, as RuleDBBase.pruned_dict does), or the end of the search.  *)
@@ -31,7 +34,7 @@ EXTENDS Naturals, Integers, Sequences, FiniteSets, FiniteSetsExt, SequencesExt, 
 CONSTANT U
 NInf == U.ninf
 NInit == U.ninit
-Exp == <<U.nexp>>
+Exp == U.nexps
 Q == INSTANCE ClassQueue
 INSTANCE RuleDB
 PR == INSTANCE Productivity
@@ -58,6 +61,8 @@ WithC(st, c) == IF KnownC(st, c) THEN st ELSE Append(st, c)
 ClassAtL(st, l) == st[l + 1]
 IsEmptyCls(c) == c \in U.empty
 Slot(f, c, i) == IF c \in DOMAIN f THEN f[c][i] ELSE <<>>
+SlotE(c, j, i) == IF c \in DOMAIN U.expand THEN U.expand[c][j][i] ELSE <<>>
+SameClass(rule) == Len(rule.ch) = 1 /\ rule.ch[1] = rule.par    \* an equivalence strategy returning the same class: dropped
 
 \* the state threaded through the nested calls (try_verify inside add_rule inside _expand)
 S(st, em, qq, rs, ks, mk, tr, ix, sx) == [store |-> st, empt |-> em, q |-> qq, rules |-> rs, keys |-> ks, marks |-> mk, tried |-> tr, infx |-> ix, symx |-> sx]
@@ -82,12 +87,18 @@ RuleDBAdd(s, start, ends, rule, isver) ==
       stopAll(qq, ls) == IF ls = {} THEN qq ELSE LET x == CHOOSE y \in ls : TRUE IN stopAll(Q!SetStop(qq, x), ls \ {x})
       sorted == SortSeq(keep, LAMBDA a, b : a < b)
       r == [s |-> start, e |-> sorted, tw |-> (rule.tw /\ Len(sorted) = 1)]
-  IN [s EXCEPT !.empt = em2, !.q = stopAll(s.q, dropped),
+  IN IF sorted = <<start>> THEN [s EXCEPT !.empt = em2, !.q = stopAll(s.q, dropped)]     \* `if ends == [start]: return`
+     ELSE
+     [s EXCEPT !.empt = em2, !.q = stopAll(s.q, dropped),
                !.rules = IF r.tw THEN (@ \ {x \in @ : ~x.tw /\ ((x.s = r.s /\ x.e = r.e) \/ (x.s = r.e[1] /\ x.e = <<r.s>>))}) \cup {r}
                          ELSE IF \E x \in @ : x.s = r.s /\ x.e = r.e /\ x.tw THEN @ ELSE @ \cup {r},
                !.marks = IF isver THEN @ \cup {start} ELSE @]
 
-VerRule == [ch |-> <<>>, pe |-> FALSE, ip |-> TRUE, wk |-> FALSE, tw |-> FALSE, sh |-> <<>>, nf |-> TRUE]
+VerRule == [ch |-> <<>>, pe |-> FALSE, ip |-> TRUE, wk |-> FALSE, tw |-> FALSE, rv |-> FALSE, sh |-> <<>>, nf |-> TRUE, par |-> -1]
+\* the forest key of rule.to_reverse_rule(i): child i in terms of the parent and the other children
+DropI(sq, i) == SubSeq(sq, 1, i - 1) \o SubSeq(sq, i + 1, Len(sq))
+RevKey(start, ends, sh, i) == [p |-> ends[i], ch |-> <<start>> \o DropI(ends, i),
+                               sh |-> <<0 - sh[i]>> \o [j \in 1..(Len(sh) - 1) |-> DropI(sh, i)[j] - sh[i]]]
 EmptyKey(l) == [p |-> l, ch |-> <<>>, sh |-> <<>>]
 \* RuleDBForest._add_empty_rule: every empty child of a possibly_empty rule that has no empty rule yet gets one through
 \* searcher.add_rule(label, (), EmptyStrategy rule): it stops being yielded (ignore_parent) and its key is stored
@@ -102,19 +113,21 @@ AddEmpties(s, ends, i) ==
           ELSE IF IsEmptyCls(ClassAtL(s.store, l))
                THEN AddEmpties([em EXCEPT !.q = Q!SetStop(@, l), !.keys = @ \cup {EmptyKey(l)}], ends, i + 1)
                ELSE AddEmpties(em, ends, i + 1)
-\* RuleDBForest.add (reverse = False): the empty rules first, then the key of the rule itself (all children, in order);
-\* forest_key asks the emptiness of every child (is_equivalence), which caches it
+\* RuleDBForest.add: the empty rules first, then the key of the rule itself (all children, in order) and, with reverse
+\* rules on, the key of each of its reverse rules; forest_key asks the emptiness of every child (is_equivalence), caching it
 ForestAdd(s, start, ends, rule) ==
   LET s1 == IF rule.pe THEN AddEmpties(s, ends, 1) ELSE s
       es == {ends[i] : i \in 1..Len(ends)}
       em2 == [x \in DOMAIN s1.empt \cup es |->
                 IF x \in es /\ (IF x \in DOMAIN s1.empt THEN s1.empt[x] ELSE "U") = "U"
                 THEN (IF IsEmptyCls(ClassAtL(s1.store, x)) THEN "T" ELSE "F") ELSE s1.empt[x]]
-  IN [s1 EXCEPT !.empt = em2, !.keys = @ \cup {[p |-> start, ch |-> ends, sh |-> rule.sh]}]
+  IN [s1 EXCEPT !.empt = em2,
+                !.keys = @ \cup {[p |-> start, ch |-> ends, sh |-> rule.sh]}
+                           \cup (IF U.reverse /\ rule.rv THEN {RevKey(start, ends, rule.sh, i) : i \in 1..Len(ends)} ELSE {})]
 RECURSIVE TryVerify(_, _), AddRule(_, _, _, _, _), AddChildren(_, _, _, _)
 DbAdd(s, start, ends, rule, isver) == IF Forest THEN ForestAdd(s, start, ends, rule) ELSE RuleDBAdd(s, start, ends, rule, isver)
-\* a slot is usable for a class unless it is empty or an equivalence strategy returning the same class (dropped)
-Usable(slot, c) == slot # <<>> /\ ~(Len(slot[1].ch) = 1 /\ slot[1].ch[1] = c)
+\* a slot (of a plain strategy) is usable unless it is empty or an equivalence strategy returning the same class (dropped)
+Usable(slot, c) == slot # <<>> /\ ~SameClass(slot[1])
 \* _symmetry_expand(class, label): the emptiness of the class is asked (and cached); every symmetric image gets a label,
 \* inherits the emptiness, is recorded by ruledb.add directly (no add_rule: no verification, not queued) and stops being yielded
 RECURSIVE SymLoop(_, _, _, _, _)
@@ -158,14 +171,18 @@ AddRule(s, start, ends, rule, isver) ==
 \* _expand_class_with_strategy + add_rule for one strategy slot
 RECURSIVE LabelAll(_, _, _)
 LabelAll(st, chs, i) == IF i > Len(chs) THEN st ELSE LabelAll(WithC(st, chs[i]), chs, i + 1)
-ExpandWith(s, l, slot) ==
+\* one rule yielded by _expand_class_with_strategy: the children are labelled first, then (for a foreign parent) the parent
+ExpandOne(s, l, rule) ==
   LET c == ClassAtL(s.store, l) IN
-  IF slot = <<>> THEN s
-  ELSE LET rule == slot[1]
-       IN IF Len(rule.ch) = 1 /\ rule.ch[1] = c THEN s      \* an equivalence strategy returning the same class is dropped
-          ELSE LET st2 == LabelAll(s.store, rule.ch, 1)
-                   ends == [i \in 1..Len(rule.ch) |-> LabelOfC(st2, rule.ch[i])]
-               IN AddRule([s EXCEPT !.store = st2], l, ends, rule, FALSE)
+  IF SameClass(rule) THEN s
+  ELSE LET st2 == LabelAll(s.store, rule.ch, 1)
+           ends == [i \in 1..Len(rule.ch) |-> LabelOfC(st2, rule.ch[i])]
+           st3 == IF rule.par = c THEN st2 ELSE WithC(st2, rule.par)
+           start == IF rule.par = c THEN l ELSE LabelOfC(st3, rule.par)
+       IN AddRule([s EXCEPT !.store = st3], start, ends, rule, FALSE)
+RECURSIVE ExpandRules(_, _, _, _)
+ExpandRules(s, l, rs, i) == IF i > Len(rs) THEN s ELSE ExpandRules(ExpandOne(s, l, rs[i]), l, rs, i + 1)
+ExpandWith(s, l, slot) == ExpandRules(s, l, slot, 1)
 
 \* _inferral_expand(class, label, strategies, skip): the first strategy (in the given order, the one that produced this
 \* class excepted) that yields a rule is applied, the parent stops being inferrable, and the inferred class is expanded in
@@ -178,7 +195,7 @@ InfExpand(s, l, order, skip) ==
            cand == {i \in 1..Len(order) : order[i] # skip /\ Usable(Slot(U.inferral, c, order[i]), c)}
        IN IF cand = {} THEN [s0 EXCEPT !.q = Q!SetNotInf(@, l)]
           ELSE LET i == Min(cand)
-                   s1 == ExpandWith(s0, l, Slot(U.inferral, c, order[i]))
+                   s1 == ExpandOne(s0, l, Slot(U.inferral, c, order[i])[1])
                    infl == LabelOfC(s1.store, Slot(U.inferral, c, order[i])[1].ch[1])
                    s2 == [s1 EXCEPT !.q = Q!SetNotInf(@, l)]
                    s3 == InfExpand(s2, infl, SubSeq(order, i + 1, Len(order)) \o SubSeq(order, 1, i), order[i])
@@ -205,7 +222,7 @@ PacketStep(s) ==
   ELSE LET s1 == [s EXCEPT !.q = r.q]  l == r.ret.l IN
        IF VerifiedL(s1, l) THEN [s |-> s1, kind |-> "skip", p |-> r.ret]
        ELSE [s |-> IF r.ret.k = "inf" THEN InfExpand(s1, l, [i \in 1..U.ninf |-> i], 0)
-                   ELSE ExpandWith(s1, l, IF r.ret.k = "init" THEN Slot(U.initial, ClassAtL(s1.store, l), r.ret.i) ELSE Slot(U.expand, ClassAtL(s1.store, l), r.ret.i)),
+                   ELSE ExpandWith(s1, l, IF r.ret.k = "init" THEN Slot(U.initial, ClassAtL(s1.store, l), r.ret.i) ELSE SlotE(ClassAtL(s1.store, l), r.ret.s, r.ret.i)),
              kind |-> "expand", p |-> r.ret]
 Packet ==
   /\ phase = "run"
@@ -216,7 +233,8 @@ Packet ==
      /\ skipped' = IF r.kind = "skip" THEN Append(skipped, r.p) ELSE skipped
      /\ UNCHANGED checks
 \* has_specification(): prune the rules up to equivalence, mark the survivors verified
-PrunedOf(rs) == LET rep == RepMap(rs, {0}) IN [rep |-> rep, surv |-> Gfp(RdEq(rs, rep))]
+PrunedOf(rs) == LET rep == RepMap(rs, {0}) IN
+                [rep |-> rep, surv |-> IF U.iterative THEN IterDerivableSet(RdEq(rs, rep), rep[0]) ELSE Gfp(RdEq(rs, rep))]
 HasSpecOf(rs) == LET p == PrunedOf(rs) IN p.rep[0] \in p.surv
 \* the answer of has_specification() in a state (forest: the root is productive; nothing is marked)
 HasSpecS(s) == IF Forest THEN PumpingL(s.keys, 0) ELSE HasSpecOf(s.rules)
@@ -241,15 +259,19 @@ RefAnswer == HasSpecS(Reference)
 
 \* ---- properties ---------------------------------------------------------------------------------
 \* C04 at the model level: every stored rule is what the universe offers for the class carrying its start label
-Offered(c) == {<<>>} \cup {Slot(U.initial, c, i) : i \in 1..U.ninit} \cup {Slot(U.expand, c, i) : i \in 1..U.nexp}
-                     \cup {Slot(U.inferral, c, i) : i \in 1..U.ninf} \cup {Slot(U.symm, c, i) : i \in 1..U.nsym}
+AllSlots == UNION {{U.initial[c][i] : i \in 1..U.ninit} : c \in DOMAIN U.initial}
+            \cup UNION {{U.inferral[c][i] : i \in 1..U.ninf} : c \in DOMAIN U.inferral}
+            \cup UNION {{U.symm[c][i] : i \in 1..U.nsym} : c \in DOMAIN U.symm}
+            \cup UNION {UNION {{U.expand[c][j][i] : i \in 1..U.nexps[j]} : j \in 1..Len(U.nexps)} : c \in DOMAIN U.expand}
+AllRules == UNION {{sl[i] : i \in 1..Len(sl)} : sl \in AllSlots}
+Offered(c) == {r \in AllRules : r.par = c}
 RuleFaithful ==
   \A r \in rules :
      LET c == ClassAtL(store, r.s) IN
      \/ r.e = <<>> /\ c \in U.verified
-     \/ \E slot \in Offered(c) : slot # <<>> /\ (\A i \in 1..Len(slot[1].ch) : KnownC(store, slot[1].ch[i])) /\
-          LET chl == [i \in 1..Len(slot[1].ch) |-> LabelOfC(store, slot[1].ch[i])]
-              keep == SelectSeq(chl, LAMBDA x : ~(slot[1].pe /\ IsEmptyCls(ClassAtL(store, x))))
+     \/ \E rule \in Offered(c) : (\A i \in 1..Len(rule.ch) : KnownC(store, rule.ch[i])) /\
+          LET chl == [i \in 1..Len(rule.ch) |-> LabelOfC(store, rule.ch[i])]
+              keep == SelectSeq(chl, LAMBDA x : ~(rule.pe /\ IsEmptyCls(ClassAtL(store, x))))
           IN r.e = SortSeq(keep, LAMBDA a, b : a < b)
 \* the same for the forest keys: an empty rule of an empty class, a verification rule of a verified class, or the key
 \* (all children in order, shifts) of a rule the universe offers for the class carrying the parent label
@@ -257,8 +279,13 @@ KeyFaithful ==
   \A k \in keys :
      LET c == ClassAtL(store, k.p) IN
      \/ k.ch = <<>> /\ (c \in U.verified \/ IsEmptyCls(c))
-     \/ \E slot \in Offered(c) : slot # <<>> /\ k.sh = slot[1].sh /\ Len(k.ch) = Len(slot[1].ch)
-                                  /\ \A i \in 1..Len(k.ch) : ClassAtL(store, k.ch[i]) = slot[1].ch[i]
+     \/ \E rule \in Offered(c) : k.sh = rule.sh /\ Len(k.ch) = Len(rule.ch)
+                                  /\ \A i \in 1..Len(k.ch) : ClassAtL(store, k.ch[i]) = rule.ch[i]
+     \* or the reverse key of an offered reversible rule of the class carrying its first child
+     \/ U.reverse /\ k.ch # <<>> /\ \E rule \in Offered(ClassAtL(store, k.ch[1])) : rule.rv /\ Len(rule.ch) = Len(k.ch) /\
+          \E i \in 1..Len(rule.ch) :
+             /\ \A j \in 1..Len(rule.ch) : KnownC(store, rule.ch[j])
+             /\ k = RevKey(k.ch[1], [j \in 1..Len(rule.ch) |-> LabelOfC(store, rule.ch[j])], rule.sh, i)
 LabelsInjective == \A i, j \in 1..Len(store) : store[i] = store[j] => i = j
 CacheTruthfulS == \A l \in DOMAIN empt : empt[l] # "U" => (empt[l] = "T") = IsEmptyCls(ClassAtL(store, l))
 \* nothing the queue hands out is lost: a packet is expanded, or skipped for a label that is verified (and stays so)
